@@ -9,7 +9,10 @@ Tie between bldfm.interface.run_bldfm_single / bldfm.config_parser and Model/Int
       hand in this file (by_hand) with numbers selected from the raw dictionary by this file;
   (3) parser correspondence: parse_config_dict vs `parse` (symbolic tokens) on generated dictionaries incl. omitted
       sections/keys, null sections, missing mandatory parts; and a YAML file vs the equal dictionary give equal
-      dataclasses.
+      dataclasses;
+  (4) the configured surface flux itself, utils.ideal_source, against Model/IdealSource.v (Properties/C13Ideal.v):
+      whole-function translation + Bridge/IdealBridge.v (harness/idealslices.py), exact 0/1 patterns against the rational
+      twin and interval-certified Gaussian cells (harness/idealcorr.py).
 The implementation side runs in sub-processes (`python c13.py job in.json out.json`)."""
 import hashlib
 import itertools
@@ -23,14 +26,23 @@ import core
 
 THEOREMS = ["C13_plumb", "C13_rules", "C13_run_is_pipeline", "C13_parse_defaults", "C13_parse_keys",
             "C13_parse_raises", "C13_yaml_dict"]
+# second properties file (Properties/C13Ideal.v): the configured surface flux, utils.ideal_source, over Coq's reals
+THEOREMS_IDEAL = ["C13i_shape", "C13i_shape_dispatch", "C13i_unknown_shape_zero", "C13i_default_location", "C13i_diamond",
+                  "C13i_circle", "C13i_indicator_empty", "C13i_diamond_in_circle", "C13i_circle_not_in_diamond", "C13i_nodes",
+                  "C13i_nodes_vs_solver_grid", "C13i_mirror", "C13i_default_symmetric", "C13i_transpose",
+                  "C13i_point_closed_form", "C13i_point_positive_decreasing", "C13i_point_max_at_nearest_node",
+                  "C13i_seen_from_solver_grid", "C13i_point_peak_normalisation", "C13i_scaling", "C13i_exec_sound"]
 TRUSTED = [
     "harness/py2coq_interface.py (fail-closed `ast` transliteration of run_bldfm_single, the _parse_* functions, parse_config_dict, load_config, the dataclass fields/defaults, BLDFMConfig.__post_init__ and TowerConfig.compute_local_xy into the description types of Model/InterfaceDesc.v; positional arguments are resolved in Coq through the callees' signatures read from utils.py / pbl_model.py / solver.py) and the semantics given to those descriptions in Model/InterfaceDesc.v (run_desc, place_desc: Python's None / `is None` / truthiness, dict access, field name -> model projection); Bridge/InterfaceBridge.v and Bridge/ConfigParserBridge.v prove per run that they equal plumb_c / place / the parser tables for ALL arguments, Proofs/InterfaceBridgeLemmas.v relates the tables to Interface.parse_*",
     "Model/Interface.v is hand-written; tied to interface.run_bldfm_single by recording the arguments the four pipeline functions actually receive (exact: bit patterns, array digests, object hand-over) and to config_parser.parse_config_dict by differential execution",
     "C13_run_is_pipeline and C13_yaml_dict hold by construction of the model; their content on the real code is the bit-equality of result arrays with the by-hand pipeline and the YAML-file-vs-dictionary dataclass equality measured by the correspondence",
     "PyYAML (yaml.safe_load / safe_dump), CPython dataclass equality, inspect.signature binding used by the recorders",
     "the numerical routines (compute_wind_fields, vertical_profiles, ideal_source, steady_state_transport_solver) are deterministic functions of their arguments within one process (C12)",
+    "harness/idealslices.py (fail-closed whole-function reading of utils.ideal_source as an elementwise program: numpy broadcasting of scalar/2-d operands, np.where / np.abs / np.sqrt / np.exp elementwise, np.meshgrid(x, y)[j,i] = (x[i], y[j]), np.zeros, `if shape == lit` blocks as guarded re-bindings) and Model/IdealSource.np_linspace standing for numpy.linspace (start + i*(stop-start)/(num-1), the single node `start` for num = 1; validated against numpy on every run by the correspondence); Bridge/IdealBridge.v proves per run that the generated cell function equals ideal_source_cell for ALL arguments",
+    "Properties/C13Ideal.v is over Coq's reals (stdlib real axioms); IEEE rounding inside ideal_source is not covered by a theorem: indicator cells are compared exactly where the float evaluation is exact or the exact margin exceeds a stated rounding bound (harness/idealcorr.py, the other cells are counted, not compared), Gaussian cells by interval-certified goals with 1e-12 relative tolerance",
 ]
 ASSUMPTIONS = [
+    "ideal_source: nx, ny are Python integers >= 0 (np.zeros / np.linspace reject anything else), the extents and the location are finite Python/numpy real numbers, shape is a str; theorems about the Gaussian assume 0 < xmx and 0 < nx where stated",
     "scalars are opaque to run_bldfm_single (it only selects and forwards them): distinct scalars of a configuration get distinct integer tokens, equal scalars the same token",
     "valid configurations: values have the documented shapes (scalars, lists, booleans, integer nz and output_levels); dictionaries have unique keys",
     "the YAML library returns for a file the dictionary it denotes (Section variable yaml_load in C13_yaml_dict)",
@@ -1094,9 +1106,13 @@ def eval_terms(ctx, prefix, terms, batch=25, extra_header=""):
 
 def check(ctx):
     core.check_properties_file(ctx, "Properties/C13.v", THEOREMS, core.AX_NONE)
+    core.check_properties_file(ctx, "Properties/C13Ideal.v", THEOREMS_IDEAL, core.AX_REALS)
     # tie (B): descriptions of run_bldfm_single / the parser re-extracted from core.SRC, bridge lemmas for ALL arguments
     import py2coq_interface
     py2coq_interface.bridge(ctx)
+    # tie (B) for the configured surface flux: utils.ideal_source, whole function -> Gen/GenIdeal.v, Bridge/IdealBridge.v
+    import idealslices
+    idealslices.run(ctx)
     n_random = 2500 if ctx.thorough else 330
     cases, pairs_seen, pairs_all = gen_cases(ctx.rng, n_random, full_product=ctx.thorough)
     for j, c in enumerate(cases):
@@ -1193,6 +1209,9 @@ def check(ctx):
         "histogram": {"outcome": hist, "parse": phist, "options": dimhist},
         "pair_coverage": [pairs_seen, pairs_all],
     })
+    # tie (A) for utils.ideal_source: exact 0/1 patterns against the rational twin, interval-certified Gaussian cells
+    import idealcorr
+    idealcorr.check(ctx)
 
 
 # --------------------------------------------------------------------------------------------------
@@ -1351,10 +1370,15 @@ def oracle(ctx, hints):
             y = oracle_yaml(impl, raw, tmpdir)
             if y:
                 note(y[0], y[1], {"raw": raw, "yaml": True}, size_of(raw))
-    return [{"signature": sig, "what": what, "replay": rp} for sig, (size, what, rp) in found.items()]
+    import idealcorr
+    extra = idealcorr.oracle(ctx, hints)   # the surface-flux helper against its documented field (exact rationals)
+    return [{"signature": sig, "what": what, "replay": rp} for sig, (size, what, rp) in found.items()] + extra
 
 
 def replay(body):
+    if "ideal" in body:
+        import idealcorr
+        return idealcorr.replay(body)
     os.environ.update(serial_env())
     impl = load_impl()
     if body.get("yaml"):
